@@ -526,10 +526,10 @@ class Translator:
                 a1, _ = self.expr(e.args[1], cx, 'Z')
                 return f'(point_along_link gc mid {a0} {a1})', 'geoid'
             bt, bty = self._expr(f.value, cx)
-            if bty == 'VState' and f.attr == 'exit' and len(e.args) == 3:
+            if bty == 'VS' and f.attr == 'exit' and len(e.args) == 3:
                 a = [self._expr(x, cx)[0] for x in e.args]
                 return f'(vs_exit {a[2]} {bt} {a[0]} {a[1]})', 'res Sim'
-            if bty == 'VState' and f.attr == 'enter' and len(e.args) == 2:
+            if bty == 'VS' and f.attr == 'enter' and len(e.args) == 2:
                 a = [self._expr(x, cx)[0] for x in e.args]
                 return f'(vs_enter {a[1]} {bt} {a[0]})', 'res Sim'
             # idioms on oracles
